@@ -1,10 +1,14 @@
 package main
 
 import (
-	"strings"
+	"encoding/json"
 	"fmt"
 	"go/token"
 	"go/types"
+	"os"
+	"path/filepath"
+	"strconv"
+	"strings"
 
 	"golang.org/x/tools/go/ssa"
 )
@@ -444,6 +448,7 @@ func (fv *FuncVC) loopHeader(b *ssa.BasicBlock, phis []*ssa.Phi, entryVal func(*
 		for k, v := range entry {
 			env.names[k] = v
 		}
+		fv.bindPhiAliases(env, n, phis, func(ph *ssa.Phi) Val { return entry[phiName(ph)] })
 		for _, inv := range spec.Invs {
 			t := env.evalBool(inv.E, inv)
 			cs := splitAnd(t)
@@ -473,6 +478,7 @@ func (fv *FuncVC) loopHeader(b *ssa.BasicBlock, phis []*ssa.Phi, entryVal func(*
 		for _, ph := range phis {
 			env.names[phiName(ph)] = fv.vals[ph]
 		}
+		fv.bindPhiAliases(env, n, phis, func(ph *ssa.Phi) Val { return fv.vals[ph] })
 		for _, inv := range spec.Invs {
 			t := env.evalBool(inv.E, inv)
 			fv.assume(t)
@@ -521,6 +527,8 @@ func (fv *FuncVC) backEdge(p, h *ssa.BasicBlock, succIdx int) {
 	fv.curReach = fv.edgeReach2(p, h)
 	env := fv.newEnv(fv.cur, fv.entry)
 	fv.bindRangeLen(env, h)
+	var keepPhis []*ssa.Phi
+	keepVals := map[*ssa.Phi]Val{}
 	for _, in := range h.Instrs {
 		ph, ok := in.(*ssa.Phi)
 		if !ok {
@@ -530,7 +538,10 @@ func (fv *FuncVC) backEdge(p, h *ssa.BasicBlock, succIdx int) {
 		v.T = fv.asTerm(v, ph.Type())
 		v.LV = nil
 		env.names[phiName(ph)] = v
+		keepPhis = append(keepPhis, ph)
+		keepVals[ph] = v
 	}
+	fv.bindPhiAliases(env, n, keepPhis, func(ph *ssa.Phi) Val { return keepVals[ph] })
 	for _, inv := range spec.Invs {
 		t := env.evalBool(inv.E, inv)
 		cs := splitAnd(t)
@@ -558,4 +569,63 @@ func (fv *FuncVC) edgeReach2(p, b *ssa.BasicBlock) string {
 		c = "true"
 	}
 	return smtAnd(fv.reach[p], c)
+}
+
+// Baseline of source names (baseline_names.json, written by `govc baseline` from the pinned tree and
+// committed): for every function under contract the names of its captured variables and, per loop,
+// of its loop-carried variables, in SSA order. A contract names these variables as the source does;
+// when the source renames one, the name the contract uses is bound to the variable at the same
+// position (SSA orders them by declaration, so a rename keeps the position). Only when the number
+// of variables is unchanged, and only for names that no longer exist.
+type fnNames struct {
+	FreeVars []string            `json:"freevars,omitempty"`
+	Loops    map[string][]string `json:"loops,omitempty"`
+}
+
+var baselineNames map[string]fnNames
+
+func loadBaselineNames(verif string) map[string]fnNames {
+	if baselineNames == nil {
+		baselineNames = map[string]fnNames{}
+		if data, err := os.ReadFile(filepath.Join(verif, "baseline_names.json")); err == nil {
+			json.Unmarshal(data, &baselineNames)
+		}
+	}
+	return baselineNames
+}
+
+func (fv *FuncVC) bindPhiAliases(env *Env, loop int, phis []*ssa.Phi, valOf func(*ssa.Phi) Val) {
+	bn, ok := loadBaselineNames(fv.P.VerifRoot)[fv.Fn.String()]
+	if !ok {
+		return
+	}
+	old := bn.Loops[strconv.Itoa(loop)]
+	if len(old) != len(phis) || len(old) == 0 {
+		return
+	}
+	cur := map[string]bool{}
+	for _, ph := range phis {
+		cur[phiName(ph)] = true
+	}
+	synthetic := func(n string) bool {
+		// names the SSA builder makes up (range-loop index, unnamed temporaries): not the source's
+		return n == "" || n == "rangeindex" || strings.HasPrefix(n, "rangeindex") || (len(n) > 1 && n[0] == 't' && n[1] >= '0' && n[1] <= '9')
+	}
+	// a rename keeps every other variable: at least the synthetic ones must still line up, and the
+	// variable taking over a name must be a source variable of the same type
+	for k, name := range old {
+		if synthetic(name) != synthetic(phiName(phis[k])) || (synthetic(name) && name != phiName(phis[k])) {
+			return
+		}
+	}
+	for k, name := range old {
+		if name == "" || cur[name] || synthetic(name) {
+			continue
+		}
+		if _, bound := env.names[name]; bound {
+			continue
+		}
+		env.names[name] = valOf(phis[k])
+		fv.warn("loop %d: the contract's variable %q is bound to %q (same position; renamed since the pinned tree)", loop, name, phiName(phis[k]))
+	}
 }
